@@ -1,4 +1,5 @@
 import Infretis.Lemmas.ReadersLmp
+import Infretis.Lemmas.ReadersXyz
 import Infretis.Lemmas.ReadersSpec
 /-!
 # Lemmas for C13, part 5: `lammpstrj_reader`, frame by frame and poll by poll
@@ -348,5 +349,310 @@ theorem lmpRun_prefix_cont (A B : List Line) (st S : LSt) (h : lmpRun (A ++ B) s
   | cont S' => rw [hA] at h; exact ⟨S', rfl, h⟩
   | ret r => rw [hA] at h; cases h
   | err e => rw [hA] at h; cases h
+
+/-! ### one frame -/
+
+/-- state in which the loop meets the first line of a frame -/
+structure LReady (N : Nat) (st : LSt) : Prop where
+  imod : st.i % (N + 9) = 0
+  kind : (st.i = 0 ∧ st.block = 4) ∨
+    (st.i ≠ 0 ∧ st.natoms = N ∧ st.block = N + 9 ∧ st.coords = zeros N 6 ∧ st.box = zeros 3 3)
+  pos : st.pos = st.tell
+
+theorem lInit_ready (N pos : Nat) : LReady N (lInit pos) :=
+  ⟨by simp [lInit], Or.inl ⟨rfl, rfl⟩, rfl⟩
+
+theorem LReady.ge {N : Nat} {st : LSt} (h : LReady N st) (hne : st.i ≠ 0) : N + 9 ≤ st.i := by
+  rcases Nat.lt_or_ge st.i (N + 9) with hlt | hge
+  · have := Nat.mod_eq_of_lt hlt
+    rw [h.imod] at this; omega
+  · exact hge
+
+/-- the first four lines of a frame: afterwards `N_atoms`, `block_size` and fresh arrays are in place,
+    whether this is the first frame of the poll (learned from line 4) or a later one (kept) -/
+theorem lmpRun_hdr4 (N : Nat) (hN : 1 ≤ N) (f : LmpF) (hf : f.WF N) (st : LSt) (hst : LReady N st) :
+    lmpRun [f.l0, f.l1, f.l2, f.l3] st
+      = .cont ⟨st.i + 4, N, N + 9, zeros N 6, zeros 3 3, st.traj, st.pos,
+               st.tell + (f.l0.length + (f.l1.length + (f.l2.length + f.l3.length)))⟩ := by
+  have hge := hst.ge
+  obtain ⟨him, hkind, _⟩ := hst
+  obtain ⟨i, natoms, block, coords, box, traj, pos, tell⟩ := st
+  simp only at him hkind hge ⊢
+  rcases hkind with ⟨h0, hb⟩ | ⟨hne, hn, hb, hc, hx⟩
+  · subst h0 hb
+    simp only [lmpRun]
+    rw [lmpStep_plain' 0 _ 4 _ _ _ _ _ f.l0 0 rfl (by simp [hf.l0ne]) (by omega) (by omega) (by omega)]
+    simp only []
+    rw [lmpStep_plain' (0 + 1) _ 4 _ _ _ _ _ f.l1 1 rfl (by omega) (by omega) (by omega) (by omega)]
+    simp only []
+    rw [lmpStep_plain' (0 + 1 + 1) _ 4 _ _ _ _ _ f.l2 2 rfl (by omega) (by omega) (by omega) (by omega)]
+    simp only []
+    rw [lmpStep_natoms N _ f.l3 rfl hf.l3 hf.l3tok]
+    simp only [Res.cont.injEq, LSt.mk.injEq, true_and]
+    omega
+  · subst hn hb hc hx
+    have hge := hge hne
+    have hm : ∀ r, r < natoms + 9 → (i + r) % (natoms + 9) = r :=
+      fun r hr => add_mod_of_mod_zero i r (natoms + 9) him hr
+    simp only [lmpRun]
+    rw [lmpStep_plain' i _ _ _ _ _ _ _ f.l0 0 him (by omega) (by omega) (by omega) (by omega)]
+    simp only []
+    rw [lmpStep_plain' (i + 1) _ _ _ _ _ _ _ f.l1 1 (hm 1 (by omega)) (by omega) (by omega) (by omega) (by omega)]
+    simp only []
+    rw [lmpStep_plain' (i + 1 + 1) _ _ _ _ _ _ _ f.l2 2 (by simpa using hm 2 (by omega)) (by omega) (by omega)
+      (by omega) (by omega)]
+    simp only []
+    rw [lmpStep_plain' (i + 1 + 1 + 1) _ _ _ _ _ _ _ f.l3 3 (by simpa using hm 3 (by omega)) (by omega)
+      (by omega) (by omega) (by omega)]
+    simp only [Res.cont.injEq, LSt.mk.injEq, true_and]
+    omega
+
+/-- header plus `as` atom lines (complete ones, or the last one without its newline) -/
+theorem lmpRun_frame_as (N : Nat) (hN : 1 ≤ N) (f : LmpF) (hf : f.WF N) (as : List Line)
+    (hwf : ∀ a ∈ as, LAtomTok N a) (hlen : as.length ≤ N) (st : LSt) (hst : LReady N st) :
+    lmpRun (f.hdr ++ as) st
+      = .cont (if as.length = N then
+          ⟨st.i + 9 + as.length, N, N + 9, zeros N 6, zeros 3 3,
+            st.traj ++ [(as.foldl (lplace N) (zeros N 6), [boxRow f.b0, boxRow f.b1, boxRow f.b2])],
+            st.tell + (f.hdr ++ as).flatten.length, st.tell + (f.hdr ++ as).flatten.length⟩
+        else
+          ⟨st.i + 9 + as.length, N, N + 9, as.foldl (lplace N) (zeros N 6),
+            [boxRow f.b0, boxRow f.b1, boxRow f.b2], st.traj, st.pos,
+            st.tell + (f.hdr ++ as).flatten.length⟩) := by
+  have e : f.hdr ++ as = [f.l0, f.l1, f.l2, f.l3] ++ ([f.l4, f.b0, f.b1, f.b2, f.l8] ++ as) := by
+    simp [LmpF.hdr]
+  rw [e, lmpRun_append, lmpRun_hdr4 N hN f hf st hst]
+  simp only []
+  rw [lmpRun_tail N hN f hf as hwf hlen st.i hst.imod]
+  simp only [List.cons_append, List.nil_append, List.flatten_cons, List.length_append, Nat.add_assoc]
+
+theorem flatten_length_pos (fl : List Line) (h : ∀ l ∈ fl, IsLine l) (hne : fl ≠ []) :
+    0 < fl.flatten.length := by
+  cases fl with
+  | nil => exact absurd rfl hne
+  | cons l fl => have := (h l (by simp)).length_pos; simp; omega
+
+/-- where a cut lies: it misses exactly the last byte of `fl` iff it is in the last line, one byte short -/
+theorem cut_arith (fl : List Line) (h : ∀ l ∈ fl, IsLine l) (k : Nat) (hk : k < fl.length) (j : Nat)
+    (hj : j < fl[k].length) :
+    ((fl.take k).flatten).length + j + 1 = fl.flatten.length ↔ (k + 1 = fl.length ∧ j + 1 = fl[k].length) := by
+  have hsplit : fl = fl.take k ++ fl[k] :: fl.drop (k + 1) := by
+    rw [List.getElem_cons_drop hk, List.take_append_drop]
+  have hlen : fl.flatten.length
+      = ((fl.take k).flatten).length + (fl[k].length + ((fl.drop (k + 1)).flatten).length) := by
+    have := congrArg (fun x => x.flatten.length) hsplit
+    simpa only [List.flatten_append, List.flatten_cons, List.length_append] using this
+  constructor
+  · intro he
+    have hQ : ((fl.drop (k + 1)).flatten).length = 0 := by omega
+    have hnil : fl.drop (k + 1) = [] := by
+      cases hd : fl.drop (k + 1) with
+      | nil => rfl
+      | cons x xs =>
+        have := flatten_length_pos (fl.drop (k + 1)) (fun l hl => h l (List.mem_of_mem_drop hl)) (by simp [hd])
+        omega
+    have : fl.length ≤ k + 1 := by simpa using List.drop_eq_nil_iff.mp hnil
+    exact ⟨by omega, by omega⟩
+  · rintro ⟨h1, h2⟩
+    have hnil : fl.drop (k + 1) = [] := List.drop_eq_nil_iff.mpr (by omega)
+    rw [hlen, hnil]; simp; omega
+
+/-- the state after `k ≤ 8` header lines -/
+theorem lmpRun_hdr_prefix (N : Nat) (hN : 1 ≤ N) (f : LmpF) (hf : f.WF N) (st : LSt) (hst : LReady N st)
+    (k : Nat) (hk : k ≤ 8) :
+    ∃ S, lmpRun (f.hdr.take k) st = .cont S ∧ S.i = st.i + k ∧ S.traj = st.traj ∧ S.pos = st.pos ∧
+      ((st.i = 0 ∧ k ≤ 3 ∧ S.block = 4) ∨ (S.block = N + 9 ∧ S.natoms = N ∧ (st.i = 0 → 4 ≤ k))) := by
+  have hfull := lmpRun_frame_as N hN f hf [] (by simp) (by simp) st hst
+  rw [List.append_nil] at hfull
+  have hsplit : f.hdr = f.hdr.take k ++ f.hdr.drop k := (List.take_append_drop k f.hdr).symm
+  rw [hsplit] at hfull
+  obtain ⟨S, hS, _⟩ := lmpRun_prefix_cont _ _ _ _ hfull
+  have hlen : (f.hdr.take k).length = k := by simp [LmpF.hdr]; omega
+  refine ⟨S, hS, ?_⟩
+  rcases hst.kind with ⟨h0, hb⟩ | ⟨hne, hn, hb, _, _⟩
+  · by_cases hk3 : k ≤ 3
+    · obtain ⟨e1, e2, _, e4, e5⟩ := lmpRun_quiet _ st S hS 4 hb (by
+        intro j hj; rw [hlen] at hj; rw [h0]; omega)
+      exact ⟨by rw [e1, hlen], e4, e5, Or.inl ⟨h0, hk3, e2⟩⟩
+    · have e : f.hdr.take k = [f.l0, f.l1, f.l2, f.l3] ++ ([f.l4, f.b0, f.b1, f.b2, f.l8].take (k - 4)) := by
+        obtain ⟨k', rfl⟩ : ∃ k', k = k' + 4 := ⟨k - 4, by omega⟩
+        simp [LmpF.hdr]
+      rw [e, lmpRun_append, lmpRun_hdr4 N hN f hf st hst] at hS
+      simp only [] at hS
+      have hlen' : ([f.l4, f.b0, f.b1, f.b2, f.l8].take (k - 4)).length = k - 4 := by simp; omega
+      obtain ⟨e1, e2, e3, e4, e5⟩ := lmpRun_quiet _ _ S hS (N + 9) rfl (by
+        intro j hj; rw [hlen'] at hj
+        simp only [h0]
+        have : (0 + 4 + j) % (N + 9) = 0 + 4 + j := Nat.mod_eq_of_lt (by omega)
+        rw [this]; omega)
+      simp only [] at e1 e3 e4 e5
+      exact ⟨by rw [e1, hlen']; omega, e4, e5, Or.inr ⟨e2, e3, fun _ => by omega⟩⟩
+  · have hge := hst.ge hne
+    obtain ⟨e1, e2, e3, e4, e5⟩ := lmpRun_quiet _ st S hS (N + 9) hb (by
+      intro j hj; rw [hlen] at hj
+      have : (st.i + j) % (N + 9) = j := add_mod_of_mod_zero st.i j (N + 9) hst.imod (by omega)
+      rw [this]; omega)
+    exact ⟨by rw [e1, hlen], e4, e5, Or.inr ⟨e2, by rw [e3, hn], fun h => absurd h hne⟩⟩
+
+/-- a header line that is still being written never makes the reader return a frame or raise -/
+theorem lmpStep_torn_hdr (N : Nat) (hN : 1 ≤ N) (S : LSt) (p : Line) (hp : '\n' ∉ p) (k : Nat) (hk : k ≤ 8)
+    (i0 : Nat) (hi0 : i0 % (N + 9) = 0) (hi0' : i0 ≠ 0 → N + 9 ≤ i0) (hSi : S.i = i0 + k)
+    (hb : (i0 = 0 ∧ k ≤ 3 ∧ S.block = 4) ∨ (S.block = N + 9 ∧ S.natoms = N ∧ (i0 = 0 → 4 ≤ k))) :
+    (∃ s', lmpStep S p = .cont s' ∧ s'.traj = S.traj ∧ s'.pos = S.pos) ∨ lmpStep S p = .ret (S.traj, S.pos) := by
+  have hnl := endsNl_false_of_noNl p hp
+  have hpn : p ≠ ['\n'] := by rintro rfl; simp at hp
+  have h0 : ¬ (S.i = 0 ∧ p = ['\n']) := fun h => hpn h.2
+  rcases hb with ⟨h00, hk3, hb4⟩ | ⟨hbN, hnat, hk4⟩
+  · subst h00
+    by_cases hk3' : k = 3
+    · right
+      have : S.i = 3 := by omega
+      simp [lmpStep, h0, this, hnl]
+    · left
+      have hm : S.i % S.block = k := by rw [hSi, hb4]; omega
+      refine ⟨_, lmpStep_plain S p h0 (by omega) (by rw [hm]; omega) (by rw [hm]; omega)
+        (by rw [hm, hb4]; omega), rfl, rfl⟩
+  · have hm : S.i % S.block = k := by
+      rw [hSi, hbN]; exact add_mod_of_mod_zero i0 k (N + 9) hi0 (by omega)
+    have h3 : S.i ≠ 3 := by
+      by_cases h : i0 = 0
+      · have := hk4 h; omega
+      · have := hi0' h; omega
+    by_cases hbox : 5 ≤ k ∧ k ≤ 7
+    · right
+      simp [lmpStep, h0, h3, lBody, hm, hbox, hnl]
+    · left
+      refine ⟨_, lmpStep_plain S p h0 h3 (by rw [hm]; omega) (by rw [hm]; omega)
+        (by rw [hm, hbN]; omega), rfl, rfl⟩
+
+theorem lplace_congr (N : Nat) (arr : List (List Tok)) (a b : Line) (h : split a = split b) :
+    lplace N arr a = lplace N arr b := by
+  unfold lplace; rw [h]
+
+theorem LAtomTok.of_split {N : Nat} {a b : Line} (h : LAtomTok N a) (hs : split b = split a) :
+    LAtomTok N b :=
+  ⟨by rw [hs]; exact h.len, by rw [hs]; exact h.sent, by rw [hs]; exact h.idx, by rw [hs]; exact h.fl⟩
+
+theorem LmpF.lines_length {N : Nat} {f : LmpF} (hf : f.WF N) : f.lines.length = N + 9 := by
+  simp [LmpF.lines, LmpF.hdr, hf.natoms]
+
+/-- **a frame that is not completely visible**: nothing is returned and nothing raised — except when
+    exactly its final newline is missing: then the frame is returned (all its values are there) and the
+    position is left in front of the newline. -/
+theorem lmpRun_frame_torn (N : Nat) (hN : 1 ≤ N) (f : LmpF) (hf : f.WF N) (st : LSt) (hst : LReady N st)
+    (n : Nat) (hn : n < f.enc.length) :
+    finish (fun st => (st.traj, st.pos)) (lmpRun (lines (f.enc.take n)) st)
+      = .ok (if n + 1 = f.enc.length then (st.traj ++ [f.decode N], st.tell + n) else (st.traj, st.pos)) := by
+  have henc : f.enc = f.lines.flatten := rfl
+  rw [henc] at hn ⊢
+  obtain ⟨k, p, hk, hp, he, hlines, l, hl, j, hj, hpj⟩ := lines_take_flatten f.lines hf.allLines n hn
+  have hlen9 := LmpF.lines_length hf
+  have hgk : f.lines[k] = l := by
+    have := List.getElem?_eq_getElem hk
+    rw [this] at hl; exact Option.some.inj hl
+  have hpl : p.length = j := by rw [hpj, List.length_take]; omega
+  have hnP : n = ((f.lines.take k).flatten).length + j := by
+    have := congrArg List.length he
+    rw [List.length_take, List.length_append, hpl] at this
+    omega
+  have harith := cut_arith f.lines hf.allLines k hk j (by rw [hgk]; exact hj)
+  rw [hgk, ← hnP, hlen9] at harith
+  rw [hlines, lmpRun_append]
+  by_cases hk8 : k ≤ 8
+  · have htk : f.lines.take k = f.hdr.take k := by
+      rw [LmpF.lines, List.take_append_of_le_length (by simp [LmpF.hdr]; omega)]
+    obtain ⟨S, hS, hSi, hSt, hSp, hSb⟩ := lmpRun_hdr_prefix N hN f hf st hst k hk8
+    have hcond : ¬ (n + 1 = f.lines.flatten.length) := by rw [harith]; omega
+    rw [htk, hS, if_neg hcond]
+    simp only []
+    by_cases hp0 : p = []
+    · simp [hp0, lmpRun, finish, hSt, hSp]
+    · simp only [hp0, if_false, lmpRun]
+      rcases lmpStep_torn_hdr N hN S p hp k hk8 st.i hst.imod hst.ge hSi hSb with ⟨s', hs, ht, hpp⟩ | hs
+      · rw [hs]; simp [finish, ht, hpp, hSt, hSp]
+      · rw [hs]; simp [finish, hSt, hSp]
+  · have hk9 : 9 ≤ k := by omega
+    have hm : k - 9 < N := by omega
+    have hhdr : f.hdr.length = 9 := by simp [LmpF.hdr]
+    have htk : f.lines.take k = f.hdr ++ f.atoms.take (k - 9) := by
+      rw [LmpF.lines, List.take_append, List.take_of_length_le (by omega), hhdr]
+    have hla : l = f.atoms[k - 9]'(by rw [hf.natoms]; exact hm) := by
+      rw [← hgk]; simp only [LmpF.lines]
+      rw [List.getElem_append_right (by omega)]; simp [hhdr]
+    have hlmem : l ∈ f.atoms := by rw [hla]; exact List.getElem_mem _
+    have hlok := hf.atoms l hlmem
+    obtain ⟨init, c, hbody, hinit, hc⟩ := hlok.body
+    have hll : l.length = (init ++ [c]).length + 1 := by rw [hbody]; simp
+    have hb1 : 1 ≤ (init ++ [c]).length := by simp
+    have hspl : split (init ++ [c]) = split l := by rw [hbody, split_append_nl]
+    have has0 : ∀ a ∈ f.atoms.take (k - 9), LAtomTok N a :=
+      fun a ha => (hf.atoms a (List.mem_of_mem_take ha)).tok
+    have hl0 : (f.atoms.take (k - 9)).length = k - 9 := by rw [List.length_take, hf.natoms]; omega
+    have hrun0 := lmpRun_frame_as N hN f hf (f.atoms.take (k - 9)) has0 (by omega) st hst
+    rw [hl0, if_neg (by omega)] at hrun0
+    by_cases hp0 : p = []
+    · have hj0 : j = 0 := by rw [hp0] at hpl; simpa using hpl.symm
+      have hcond : ¬ (n + 1 = f.lines.flatten.length) := by rw [harith]; omega
+      rw [htk, hrun0, if_neg hcond]
+      simp [hp0, lmpRun, finish]
+    · by_cases hjb : j < (init ++ [c]).length
+      · have hcond : ¬ (n + 1 = f.lines.flatten.length) := by rw [harith]; omega
+        rw [htk, hrun0, if_neg hcond]
+        simp only [hp0, if_false, lmpRun]
+        have hmod : (st.i + 9 + (k - 9)) % (N + 9) = 9 + (k - 9) := by
+          rw [Nat.add_assoc]; exact add_mod_of_mod_zero st.i _ (N + 9) hst.imod (by omega)
+        have hstep : lmpStep ⟨st.i + 9 + (k - 9), N, N + 9,
+              (f.atoms.take (k - 9)).foldl (lplace N) (zeros N 6), [boxRow f.b0, boxRow f.b1, boxRow f.b2],
+              st.traj, st.pos, st.tell + (f.hdr ++ f.atoms.take (k - 9)).flatten.length⟩ p
+            = .ret (st.traj, st.pos) := by
+          have h0 : ¬ (st.i + 9 + (k - 9) = 0 ∧ p = ['\n']) := by omega
+          have h3 : st.i + 9 + (k - 9) ≠ 3 := by omega
+          simp only [lmpStep, h0, h3, if_false]
+          rw [hpj, hbody]
+          exact lBody_torn_atom _ (init ++ [c]) init c rfl hc (by rw [hspl]; exact hlok.tok.len)
+            (by rw [hspl]; exact hlok.tok.sent) j hjb (by simp only [hmod]; omega) _
+        rw [hstep]; simp [finish]
+      · -- the whole line except its newline
+        have hjeq : j = (init ++ [c]).length := by omega
+        have hpb : p = init ++ [c] := by
+          rw [hpj, hbody, hjeq, List.take_append_of_le_length (Nat.le_refl _), List.take_length]
+        have hbt : LAtomTok N (init ++ [c]) := hlok.tok.of_split hspl
+        have has' : ∀ a ∈ f.atoms.take (k - 9) ++ [init ++ [c]], LAtomTok N a := by
+          intro a ha
+          rcases List.mem_append.mp ha with h | h
+          · exact has0 a h
+          · rw [List.mem_singleton.mp h]; exact hbt
+        have hl' : (f.atoms.take (k - 9) ++ [init ++ [c]]).length = k - 9 + 1 := by simp [hl0]
+        have hrun := lmpRun_frame_as N hN f hf (f.atoms.take (k - 9) ++ [init ++ [c]]) has' (by omega) st hst
+        have hcat : f.hdr ++ f.atoms.take (k - 9) ++ [p] = f.hdr ++ (f.atoms.take (k - 9) ++ [init ++ [c]]) := by
+          rw [hpb, List.append_assoc]
+        have hrun2 : (match lmpRun (f.lines.take k) st with
+              | .cont s => lmpRun (if p = [] then [] else [p]) s
+              | .ret r => .ret r
+              | .err e => .err e)
+            = lmpRun (f.hdr ++ (f.atoms.take (k - 9) ++ [init ++ [c]])) st := by
+          rw [← hcat, lmpRun_append (f.hdr ++ f.atoms.take (k - 9)) [p], htk]
+          simp [hp0]
+        rw [hrun2, hrun, hl']
+        have hflat : (f.hdr ++ (f.atoms.take (k - 9) ++ [init ++ [c]])).flatten.length = n := by
+          rw [← hcat, ← htk, hnP, hpl.symm]; simp
+        by_cases hlast : k - 9 + 1 = N
+        · have hcond : n + 1 = f.lines.flatten.length := by rw [harith]; omega
+          rw [if_pos hlast, if_pos hcond]
+          have hatoms : f.atoms = f.atoms.take (k - 9) ++ [l] := by
+            have h1 : f.atoms.take (k - 9 + 1) = f.atoms.take (k - 9) ++ [l] := by
+              rw [hla]; exact List.take_succ_eq_append_getElem (by rw [hf.natoms]; exact hm)
+            rw [← h1, List.take_of_length_le (by rw [hf.natoms]; omega)]
+          have hdec : (f.atoms.take (k - 9) ++ [init ++ [c]]).foldl (lplace N) (zeros N 6)
+              = f.atoms.foldl (lplace N) (zeros N 6) := by
+            conv => rhs; rw [hatoms]
+            rw [List.foldl_append, List.foldl_append]
+            simp only [List.foldl_cons, List.foldl_nil]
+            exact lplace_congr N _ _ _ hspl
+          rw [hflat, hdec]
+          simp [finish, LmpF.decode]
+        · have hcond : ¬ (n + 1 = f.lines.flatten.length) := by rw [harith]; omega
+          rw [if_neg hlast, if_neg hcond]
+          simp [finish]
 
 end Infretis.Readers
